@@ -480,3 +480,18 @@ theorem C07_apply_rules_source_tied : Gen.Skeleton.applyRules = Reviewed.applyRu
 
 /-- **C07 (tie).**  `metricsFailedHarvest`: the un-renamed table is handed back. -/
 theorem C07_failed_harvest_source_tied : Gen.Skeleton.metricsFailedHarvest = Reviewed.metricsFailedHarvest := rfl
+
+/-! ### Empty matches -/
+
+/-- **C07 (an empty leftmost match is a match).**  A rule (without `replace_all`, not an ignore rule) whose expression matches the
+empty string at some position — an anchor alone, an optional group — is *applied*: `replaceFirst` reports a match (so
+`terminate_chain` is honoured) and inserts the replacement there. -/
+theorem C07_rx_empty_match_is_a_match (r : RuleX) (s : Str) (a : Nat) (c : Caps)
+    (h : r.re.find s.toArray 0 = some (a, a, c)) :
+    replaceFirstX r s = (.matched, s.take a ++ reReplaceAll r.re (s.toArray.extract a a) r.tmpl ++ s.drop a) := by
+  simp [replaceFirstX, h]
+
+/-- … whereas an ignore rule needs a non-empty match (`"" != FindString(s)`) -/
+theorem C07_rx_ignore_needs_nonempty_match (r : RuleX) (s : Str) (a : Nat) (c : Caps) (hi : r.ignore = true)
+    (h : r.re.find s.toArray 0 = some (a, a, c)) : applyRuleX r s = (.unmatched, s) := by
+  simp [applyRuleX, hi, h]
